@@ -254,6 +254,59 @@ def run(ctx):
             except Exception as e:
                 ctx.fail("contract_slice raised %r" % (e,), dict(rec))
 
+    # ---------- oracle on LARGE networks (more than 52 distinct indices: labels beyond a-zA-Z) ----------
+    # matrix chains (optionally with a hyper index carried by every tensor and the output), random
+    # trees, all option combinations; reference = exact integer matrix products.  (No Coq case: the
+    # dense oracle and the case literals are only used for small networks.)
+    for k in range(ctx.n(8, 60)):
+        nmat = rng.randint(54, 60)
+        hyper = rng.random() < 0.5
+        sym = [ctg.get_symbol(i) for i in range(nmat + 2)]
+        h = sym[nmat + 1]
+        inputs = [(sym[i], sym[i + 1]) + ((h,) if hyper else ()) for i in range(nmat)]
+        output = (sym[0], sym[nmat]) + ((h,) if hyper else ())
+        size_dict = {c: 2 for c in sym}
+        arrays = [np.array([rng.choice([-1, 0, 1, 1]) for _ in range(8 if hyper else 4)], dtype=np.int64).reshape(
+            (2, 2, 2) if hyper else (2, 2)) for _ in range(nmat)]
+        # random tree that only merges neighbouring segments (keeps intermediates small):
+        # an ssa path over neighbouring segments
+        live = [(i, i) for i in range(nmat)]       # (ssa id, position) sorted by position
+        nxt = nmat
+        ssa_path = []
+        while len(live) > 1:
+            i = rng.randrange(len(live) - 1)
+            a, b = live[i], live[i + 1]
+            ssa_path.append((a[0], b[0]))
+            live[i:i + 2] = [(nxt, a[1])]
+            nxt += 1
+        try:
+            tree = ctg.ContractionTree.from_path(inputs, output, size_dict, ssa_path=ssa_path)
+            pe = rng.random() < 0.6
+            impl = rng.choice(["auto", "cotengra", "autoray"])
+            got = np.asarray(tree.contract(arrays, prefer_einsum=pe, implementation=impl))
+            if hyper:
+                ref = np.zeros((2, 2, 2), dtype=object)
+                for hv in range(2):
+                    m = np.eye(2, dtype=object)
+                    for a in arrays:
+                        m = m.dot(a[:, :, hv].astype(object))
+                    ref[:, :, hv] = m
+            else:
+                ref = np.eye(2, dtype=object)
+                for a in arrays:
+                    ref = ref.dot(a.astype(object))
+            ctx.count("large_chain")
+            ctx.case(("chain", nmat, hyper, tuple(ssa_path), pe, impl), nontrivial=True)
+            if not oracle.arrays_equal_exact(got, ref):
+                ctx.fail("tree.contract on a network with more than 52 indices differs from the exact matrix-chain product",
+                         {"chain_length": nmat, "hyper_index": hyper, "ssa_path": ssa_path, "prefer_einsum": pe,
+                          "implementation": impl, "arrays": [a.tolist() for a in arrays],
+                          "got": got.tolist(), "want": ref.tolist()})
+        except Exception as e:
+            ctx.fail("tree.contract on a network with more than 52 indices raised %r" % (e,),
+                     {"chain_length": nmat, "hyper_index": hyper, "ssa_path": ssa_path, "prefer_einsum": pe,
+                      "implementation": impl})
+
     # pre-steps: the real program lists them in dict order of tree.preprocessing; compare as sorted
     prelude = MODEL_PROG + r"""
 Definition is_pre (o : nat * (list nat * (list nat * (list nat * (list nat * (list nat * (list nat * option (list nat)))))))) := Nat.eqb (fst o) 0.
